@@ -169,6 +169,77 @@ inline T gen_real(Tape& t, unsigned flags = R_ALL, int decades = 6)
     return v;
 }
 
+
+// channel weight vector: at least one positive, all finite, none negative (what callers pass)
+template <typename T>
+inline std::vector<T> gen_weights(Tape& t, std::size_t max_n, std::string* how = nullptr)
+{
+    std::size_t n;
+    switch (t.pick(4))
+    {
+    case 0: n = t.range(1, 4); break;
+    case 1: n = t.range(1, 8); break;
+    case 2: n = t.range(1, 16); break;
+    default: n = t.range(1, max_n); break;
+    }
+    if (n > max_n) { n = max_n; }
+    std::vector<T> w(n);
+    std::size_t const pattern = t.pick(7);
+    char const* pname = "";
+    switch (pattern)
+    {
+    case 0: pname = "uniform"; for (auto& x : w) { x = T(1) / T(n); } break;
+    case 1: pname = "ones"; for (auto& x : w) { x = T(1); } break;
+    case 2:
+    {
+        pname = "dyadic";
+        unsigned const q = 1u + static_cast<unsigned>(t.range(0, 5));
+        for (auto& x : w) { x = T(static_cast<long double>(t.range(0, 1u << q))) / T(1u << q); }
+        break;
+    }
+    case 3: pname = "arbitrary"; for (auto& x : w) { x = gen_real<T>(t, 0u, 3); } break;
+    case 4:
+    {
+        pname = "ratios";
+        for (auto& x : w)
+        {
+            int const e = static_cast<int>(t.range(0, 24)) - 12;
+            x = T(std::pow(10.0L, static_cast<long double>(e)) * (1.0L + static_cast<long double>(t.unit())));
+        }
+        break;
+    }
+    case 5: pname = "one-positive"; for (auto& x : w) { x = T(0); } w[t.pick(n)] = gen_real<T>(t, 0u, 3); break;
+    default:
+    {
+        pname = "increasing";
+        for (std::size_t i = 0; i != n; ++i) { w[i] = T(i + 1); }
+        break;
+    }
+    }
+    char const* zname = "";
+    switch (t.pick(5))
+    {
+    case 0: break;
+    case 1: { zname = "+zeros-front"; std::size_t k = t.range(1, n > 1 ? n - 1 : 1); for (std::size_t i = 0; i < k && i < n; ++i) { w[i] = T(0); } break; }
+    case 2: { zname = "+zeros-end"; std::size_t k = t.range(1, n > 1 ? n - 1 : 1); for (std::size_t i = 0; i < k && i < n; ++i) { w[n - 1 - i] = T(0); } break; }
+    case 3: { zname = "+zeros-middle"; std::size_t a = t.pick(n), b = t.pick(n); if (a > b) { std::swap(a, b); } for (std::size_t i = a; i <= b; ++i) { w[i] = T(0); } break; }
+    default: { zname = "+zeros-mask"; std::uint64_t m = t.bits(); for (std::size_t i = 0; i != n; ++i) { if ((m >> (i % 64)) & 1u) { w[i] = T(0); } } break; }
+    }
+    char const* sname = "";
+    switch (t.pick(4))
+    {
+    case 0: break;
+    case 1: sname = "*7"; for (auto& x : w) { x *= T(7); } break;
+    case 2: sname = "*2^-20"; for (auto& x : w) { x *= T(1.0 / 1048576.0); } break;
+    default: sname = "*1e6"; for (auto& x : w) { x *= T(1e6); } break;
+    }
+    bool any = false;
+    for (auto x : w) { if (x > T(0)) { any = true; } }
+    if (!any) { w[t.pick(n)] = T(1); }
+    if (how) { *how = std::string(pname) + zname + sname; }
+    return w;
+}
+
 // SplitMix-based pattern stream for bulk data: value i of stream `seed` in [0,1)
 inline double stream_unit(std::uint64_t seed, std::uint64_t index)
 {
